@@ -140,6 +140,32 @@ def _delta_exprs(body, v):
     return out[:4]
 
 
+def _bcast_ifs(t, out, seen):
+    if t.get_id() in seen or z3.is_quantifier(t):
+        return
+    seen.add(t.get_id())
+    if z3.is_app_of(t, z3.Z3_OP_ITE) and t.sort() == z3.IntSort() and z3.is_int_value(t.arg(1)) and t.arg(1).as_long() == 0 and z3.is_eq(t.arg(0)):
+        out.append(t)
+    for c in t.children():
+        _bcast_ifs(c, out, seen)
+
+
+def debroadcast(s, summands):
+    """If(size == 1, 0, i)  (index into an operand broadcast along a dimension of the same size) is  i  when 0 <= i < size"""
+    out = []
+    for bound, body in summands:
+        pats = []
+        _bcast_ifs(body, pats, set())
+        subs = []
+        for p in pats[:12]:
+            if _unsat(s, *_range_facts(bound), p != p.arg(2)):
+                subs.append((p, p.arg(2)))
+        if subs:
+            body = z3.substitute(body, *subs)
+        out.append((bound, body))
+    return out
+
+
 def collapse(s, summands):
     """single-support bound variables are eliminated"""
     out = []
@@ -151,8 +177,6 @@ def collapse(s, summands):
             for i, (v, n) in enumerate(bound):
                 others = bound[:i] + bound[i + 1:]
                 for e in _delta_exprs(body, v):
-                    if any(_mentions(e, w) for w, _ in others):
-                        continue
                     if _unsat(s, *_range_facts(bound), v != e, body != 0):
                         body = z3.If(z3.And(e >= 0, e < n), z3.substitute(body, (v, e)), z3.RealVal(0) if body.sort() == z3.RealSort() else z3.IntVal(0))
                         bound = others
@@ -326,6 +350,7 @@ def prove_equal(s: z3.Solver, lhs, rhs) -> bool:
         summands = normalise(expr)
         summands = unroll_small(s, summands)
         summands = _expand(summands)
+        summands = debroadcast(s, summands)
         summands = collapse(s, summands)
         summands = _expand(summands)
     except TooBig:
